@@ -1196,6 +1196,72 @@ def extra_release_overtakes():
     return errs
 
 
+def extra_same_object_during_inspect():
+    """the same object of a not-yet-seen class in n messages sent back to back: the later ones are dispatched by the nested
+    serve() of the first one's HANDLE_INSPECT round trip.  All receptions must be ONE proxy (`is`) whose `____refcount__`
+    is n — the owner registered n references, the one release notice must release them all — and after the proxy is let
+    go and the notice is delivered the owner's table no longer holds the object and it is collectable.  Single-threaded
+    ends; real code only."""
+    import rpyc
+    import simnet
+    from rpyc.core import brine
+    errs = []
+    net = simnet.Net()
+    with net.installed():
+        ca, cb = net.connect_pair(compress=False)
+        try:
+            got, hold, alive = [], [], []
+
+            def keep(x):                 # runs at A
+                got.append(x)
+                return len(got)
+
+            def twice(keep_fn, n):       # runs at B: one fresh-class object in n requests, sent back to back
+                fresh = type("FreshTwice", (object,), {})()
+                alive.append(weakref.ref(fresh))
+                hold.append([rpyc.async_(keep_fn)(fresh) for _ in range(n)])
+                return None
+
+            def ping():
+                return None
+            twice_p, ping_p = [ca._unbox(brine.load(brine.dump(cb._box(f)))) for f in (twice, ping)]
+            for n in (2, 3):
+                del got[:]
+                twice_p(keep, n)
+                ping_p()
+                ping_p()
+                if len(got) != n:
+                    errs.append("%d requests with the same fresh object: %d arrived" % (n, len(got)))
+                elif not all(p is got[0] for p in got):
+                    errs.append("the same remote object received %d times while its proxy is alive (the later messages "
+                                "dispatched during the first one's INSPECT round trip) arrived as %d different proxies"
+                                % (n, len(set(id(p) for p in got))))
+                elif object.__getattribute__(got[0], "____refcount__") != n:
+                    errs.append("one proxy received %d times counts %d references" % (
+                        n, object.__getattribute__(got[0], "____refcount__")))
+                del got[:]
+                ping_p()
+                ping_p()
+                left = [v[1] for k, v in cb._local_objects._dict.items() if k[0].endswith("FreshTwice")]
+                if left:
+                    errs.append("received %d times, one proxy, dropped, release delivered: the owner's table still holds the "
+                                "object (stored count %r)" % (n, left))
+                del hold[:]
+                cb._last_traceback = None
+                gc.collect()
+                if any(w() is not None for w in alive):
+                    errs.append("received %d times, dropped, release delivered: the object is not collectable at its owner" % n)
+                del alive[:]
+        except Exception as ex:  # noqa
+            errs.append("the inspect-window scenario raised %s: %s" % (type(ex).__name__.split(".")[-1], str(ex)[:100]))
+        finally:
+            twice_p = ping_p = None
+            del got[:], hold[:]
+            net.shutdown([ca])
+    return errs
+
+
+
 class ZeroInt(int):
     pass
 
@@ -1275,7 +1341,7 @@ def _bounded_extra(name, fn):
 
 def extras():
     table = {"dynclass-baton": extra_dynclass_baton, "release-overtakes-reference": extra_release_overtakes,
-             "falsy-objects-baton": extra_falsy_baton}
+             "falsy-objects-baton": extra_falsy_baton, "same-object-during-inspect": extra_same_object_during_inspect}
     return dict((name, _bounded_extra(name, fn)) for name, fn in table.items())
 
 
